@@ -183,6 +183,19 @@ Theorem C08_locks_as_in_the_sources :
 Proof. exact (conj save_prog_good (conj tag_prog_good (conj del_prog_good (conj push_prog_good locks_first)))). Qed.
 Print Assumptions C08_locks_as_in_the_sources.
 
+(* more of the sources pinned: GC's sweep checks and the known algorithms (the kind-level model
+   of stray files agrees with them), the order of loadIndex, Store.tag, delete and GC *)
+Theorem C08_sweep_and_orders_as_in_the_sources :
+  (c08_calls_GC_sweep = [b "isKnownAlgorithm"; b "blobDigest.Validate"; b "reachableNodes.Contains"; b "os.Remove"] /\
+   c08_known_algorithms = ["digest.SHA256"; "digest.SHA512"; "digest.SHA384"]%string /\
+   forall k, stray_swept (fst (stray_of_kind k)) (snd (stray_of_kind k)) = gc_sweeps_stray k) /\
+  (c08_calls_loadIndex = [b "tagger.Tag"; b "deleteAnnotationRefName"; b "tagger.Tag"; b "graph.IndexAll"] /\
+   c08_calls_tag = [b "s.tagResolver.Tag"; b "s.tagResolver.Tag"; b "s.saveIndex"] /\
+   c08_calls_delete = [b "s.tagResolver.Untag"; b "s.graph.Remove"; b "s.saveIndex"; b "s.storage.Delete"] /\
+   c08_calls_GC = [b "s.sync.Lock"; b "s.gcIndex"; b "s.saveIndex"; b "os.Remove"]).
+Proof. exact (conj gc_sweep_as_in_the_sources load_and_delete_order_as_in_the_sources). Qed.
+Print Assumptions C08_sweep_and_orders_as_in_the_sources.
+
 (* any number of threads, each running any list of index-saving operations (registrations in
    the resolver followed by saveIndex as in the sources), under EVERY schedule: once all have
    returned, index.json is saveIndex of the live resolver map, i.e. its projection *)
